@@ -142,4 +142,54 @@ theorem madd_zero_right (c : V3 K) (X : M3 K) :
   simp [madd, steiner3]
 
 
+theorem m3_one_mul (A : M3 K) : @M3.mul K (fieldNum K sq) mone A = A := by
+  rcases A with ⟨⟨a00, a01, a02⟩, ⟨a10, a11, a12⟩, ⟨a20, a21, a22⟩⟩
+  simp only [M3.mul, mone]
+  congr 1 <;> congr 1 <;> ring
+
+theorem mtr_mul (A B : M3 K) :
+    mtr (@M3.mul K (fieldNum K sq) A B) = @M3.mul K (fieldNum K sq) (mtr B) (mtr A) := by
+  rcases A with ⟨⟨a00, a01, a02⟩, ⟨a10, a11, a12⟩, ⟨a20, a21, a22⟩⟩
+  rcases B with ⟨⟨b00, b01, b02⟩, ⟨b10, b11, b12⟩, ⟨b20, b21, b22⟩⟩
+  simp only [M3.mul, mtr]
+  congr 1 <;> congr 1 <;> ring
+
+theorem mtr_diag (d : V3 K) : mtr (@M3.diag K (fieldNum K sq) d) = @M3.diag K (fieldNum K sq) d := rfl
+
+theorem mtr_mtr (A : M3 K) : mtr (mtr A) = A := rfl
+
+theorem diag_mul_diag (d e : V3 K) :
+    @M3.mul K (fieldNum K sq) (@M3.diag K (fieldNum K sq) d) (@M3.diag K (fieldNum K sq) e)
+      = @M3.diag K (fieldNum K sq) ⟨d.x * e.x, d.y * e.y, d.z * e.z⟩ := by
+  simp only [M3.mul, M3.diag]
+  congr 1 <;> congr 1 <;> ring
+
+theorem scaleCols_eq (A : M3 K) (s : V3 K) :
+    @M3.scaleCols K (fieldNum K sq) A s = @M3.mul K (fieldNum K sq) A (@M3.diag K (fieldNum K sq) s) := by
+  rcases A with ⟨⟨a00, a01, a02⟩, ⟨a10, a11, a12⟩, ⟨a20, a21, a22⟩⟩
+  simp only [M3.mul, M3.diag, M3.scaleCols]
+  congr 1 <;> congr 1 <;> ring
+
+theorem transpose_eq (A : M3 K) : M3.transpose A = mtr A := rfl
+
+theorem unitQ_mul (p q : Quat K) (hp : UnitQ p) (hq : UnitQ q) : UnitQ (@Quat.mul K (fieldNum K sq) p q) := by
+  rcases p with ⟨a, b, c, d⟩; rcases q with ⟨e, f, g, h⟩
+  simp only [UnitQ, Quat.mul, Iso3.qmul] at *
+  linear_combination (e * e + f * f + g * g + h * h) * hp + hq
+
+/-- `Tᵀ (T X) = X` and `T (Tᵀ X) = X` for the rotation matrix of a unit quaternion -/
+theorem transpose_mul_cancel (q : Quat K) (hq : UnitQ q) (X : M3 K) :
+    @M3.mul K (fieldNum K sq) (mtr (@Quat.toMat K (fieldNum K sq) q)) (@M3.mul K (fieldNum K sq) (@Quat.toMat K (fieldNum K sq) q) X) = X := by
+  rw [← m3_mul_assoc, toMat_transpose_mul sq q hq, m3_one_mul]
+
+/-- conjugates of diagonal matrices by a rotation multiply like the diagonals -/
+theorem conj_diag_mul (q : Quat K) (hq : UnitQ q) (d e : V3 K) :
+    let T := @Quat.toMat K (fieldNum K sq) q
+    @M3.mul K (fieldNum K sq) (@M3.mul K (fieldNum K sq) (@M3.mul K (fieldNum K sq) T (@M3.diag K (fieldNum K sq) d)) (mtr T))
+        (@M3.mul K (fieldNum K sq) (@M3.mul K (fieldNum K sq) T (@M3.diag K (fieldNum K sq) e)) (mtr T))
+      = @M3.mul K (fieldNum K sq) (@M3.mul K (fieldNum K sq) T (@M3.diag K (fieldNum K sq) ⟨d.x * e.x, d.y * e.y, d.z * e.z⟩)) (mtr T) := by
+  intro T
+  simp only [m3_mul_assoc]
+  rw [transpose_mul_cancel sq q hq, ← m3_mul_assoc sq (@M3.diag K (fieldNum K sq) d), diag_mul_diag]
+
 end C13
